@@ -432,6 +432,8 @@ class Loader:
                         ns[ch.name] = classmethod(_bind_lazy(f))
                     else:
                         ns[ch.name] = f
+                elif isinstance(ch, ast.ClassDef) and hasattr(klass, ch.name):
+                    ns[ch.name] = getattr(klass, ch.name)  # nested class (an Enum of labels, ...): the real object
                 elif isinstance(ch, (ast.Assign, ast.AnnAssign)):
                     tgt = ch.targets[0] if isinstance(ch, ast.Assign) else ch.target
                     if isinstance(tgt, ast.Name) and hasattr(klass, tgt.id):
